@@ -26,7 +26,8 @@ def strategy_turnstile(tier):
                   shapes=("comb", "reentry", "tree", "stagger", "free", "chain"))
     return st.integers(2, n_max).flatmap(lambda n: st.fixed_dictionaries({
         "progs": st.lists(gen.programs(cfg), min_size=n, max_size=n),
-        "schedule": st.lists(st.integers(0, n - 1), min_size=0, max_size=60 if tier == "quick" else 200),
+        "schedule": st.lists(st.integers(0, n), min_size=0, max_size=60 if tier == "quick" else 200),
+        "asyncio_thread": st.booleans(),
         "mode": st.just("turnstile")}))
 
 
@@ -128,6 +129,9 @@ def thread_body(tid, prog, sync, out):
             va = yield a
             return [va, va, True]
         res["dedupe"] = [use(), len(runs)]
+        # leave per-thread debug-batch state behind (a request that is never flushed): nothing of it may ever be
+        # seen by another thread, not even by a later thread that happens to get this thread's recycled ident
+        res["leftover"] = DebugBatchItem("dbg", 99)
         stats = profiler.flush()
         # counter and function / batch type (the argument reprs contain addresses and thread names)
         res["profile"] = sorted(str(s.get("name")).split("(")[0].strip() for s in stats)
@@ -137,6 +141,32 @@ def thread_body(tid, prog, sync, out):
     finally:
         if sync is not None:
             out["__turnstile__"].finish(tid)
+
+
+def asyncio_thread(tid, sync, out, n):
+    """a thread that is inside fn.asyncio() on its own event loop while the other threads run scheduler code"""
+    import asyncio
+    from asynq import asynq as A, ConstFuture, is_asyncio_mode
+    res = out[tid] = {}
+    try:
+        @A()
+        def leaf(i):
+            return i
+
+        @A()
+        def body(k):
+            total = 0
+            for i in range(k):
+                sync()
+                total += (yield [ConstFuture(i), leaf.asynq(i)])[1]
+            sync()
+            return total
+        res["value"] = asyncio.run(body.asyncio(n))
+        res["mode_after"] = is_asyncio_mode()
+    except BaseException as e:
+        res["crash"] = "%s: %s" % (type(e).__name__, str(e)[:200])
+    finally:
+        out["__turnstile__"].finish(tid)
 
 
 def make_shared():
@@ -199,6 +229,10 @@ def check(case, ctx):
                 ts = out["__turnstile__"] = Turnstile(case["schedule"])
                 for i in range(n):
                     threads.append(threading.Thread(target=thread_body, args=(i, progs[i], (lambda i=i: ts.sync(i)), out)))
+                if case.get("asyncio_thread"):
+                    threads.append(threading.Thread(target=asyncio_thread, args=(n, (lambda: ts.sync(n)), out, 3)))
+                else:
+                    ts.done.add(n)
             else:
                 sys.setswitchinterval(1e-6)
                 barrier = threading.Barrier(n)
@@ -216,6 +250,10 @@ def check(case, ctx):
             if any(t.is_alive() for t in threads) or ts.stuck:
                 viol.append(("C16.hang", "threads did not finish (a thread waits for ever although every other thread finished or yielded its turn)"))
                 break
+            if case.get("asyncio_thread") and case["mode"] == "turnstile":
+                a = out.get(n, {})
+                if a.get("crash") or a.get("value") != 3 or a.get("mode_after") is not False:
+                    viol.append(("C16.asyncio_thread", "the thread running fn.asyncio() on its own event loop: %r (expected value 3, flag off afterwards)" % (a,)))
             scheds = [out[i].get("scheduler") for i in range(n)]
             for i in range(n):
                 for j in range(i):
@@ -244,6 +282,7 @@ def check(case, ctx):
             switches = sum(1 for a, b in zip(s, s[1:]) if a != b)
         ctx.label("threads=%d" % n)
         ctx.label("mode=" + case["mode"])
+        ctx.label("with-asyncio-thread", bool(case.get("asyncio_thread")))
         ctx.label(">=2-threads-flushing", flushing >= 2)
         ctx.label("schedule-switches>=3", switches >= 3)
         ctx.nontrivial(case, flushing >= 2 and (case["mode"] == "free" or switches >= 3))
@@ -263,6 +302,8 @@ def reduce_case(case):
             if "schedule" in c:
                 c["schedule"] = [x if x < i else x - 1 for x in case["schedule"] if x != i]
             yield c
+    if case.get("asyncio_thread"):
+        yield dict(case, asyncio_thread=False)
     if case.get("schedule"):
         s = case["schedule"]
         for i in range(0, len(s), max(1, len(s) // 8)):
